@@ -165,9 +165,8 @@ class Recorder:
             if self.gate is not None:
                 for _ in range(script.get("yields", 0)):
                     self.gate.yield_point(cb_id)
-            if self.extern_write is not None:
-                self.extern_write(cb_id, kwargs)
             machine = kwargs.get("machine")
+            self._scripted_write(cb_id, script, machine)
             for snd in script.get("sends", ()):
                 self.nested_send(machine, snd, cb_id)
             if due:
@@ -216,6 +215,7 @@ class Recorder:
 
                     await asyncio.sleep(0)
             machine = kwargs.get("machine")
+            self._scripted_write(cb_id, script, machine)
             for snd in script.get("sends", ()):
                 tok = self.new_token("n")
                 self.emit("send_call", tok=tok, event=snd["event"], nested=cb_id, style="send")
@@ -236,6 +236,16 @@ class Recorder:
             raise
         self.emit("cb_end", cb=cb_id, tok=info["tok"], ret=script.get("ret", "none"))
         return value
+
+    def _scripted_write(self, cb_id, script, machine):
+        w = script.get("write")
+        if w is None or machine is None:
+            return
+        value = self.write_values[w]
+        setattr(machine.model, machine.state_field, value)
+        self.emit("cb_write", cb=cb_id, target=w)
+
+    write_values = {}
 
     # ------------------------------------------------------------------ guards / validators
     def guard(self, gid, name, kwargs=None):
